@@ -605,6 +605,11 @@ func ruleSetArgFlow(c *Ctx) {
 				}
 			case *ssa.ChangeType:
 				return onto(x.X, d+1)
+			case *ssa.Slice:
+				// vs[:n] keeps the front of vs (whether n is in range is not this rule's business)
+				if x.Low == nil {
+					return onto(x.X, d+1)
+				}
 			case *ssa.UnOp:
 				// a captured / spilled variable: every value stored into the cell
 				if al, ok := x.X.(*ssa.Alloc); ok && x.Op == token.MUL {
@@ -907,4 +912,122 @@ func ruleNoIfaceEq(c *Ctx, fns []*ssa.Function) {
 			})
 		}
 	}
+}
+
+// ruleOkForward (R-OK-FORWARD): a comma-ok accessor does not contradict the lookup it is built on: on a path where
+// the underlying lookup's ok is known true it does not answer with a constant false (and the reverse).
+func ruleOkForward(c *Ctx, pkgs ...string) {
+	c.rule("R-OK-FORWARD", 0, "a (value, ok) accessor never answers a constant ok that contradicts the ok of the lookup known on that path")
+	for _, pkg := range pkgs {
+		for _, fn := range c.P.PkgFuncs(pkg) {
+			res := fn.Signature.Results()
+			if res.Len() != 2 {
+				continue
+			}
+			if bt, ok := res.At(1).Type().Underlying().(*types.Basic); !ok || bt.Kind() != types.Bool {
+				continue
+			}
+			fn := fn
+			n := 0
+			allInstrs(fn, func(in ssa.Instruction) {
+				ret, ok := in.(*ssa.Return)
+				if !ok || len(ret.Results) != 2 {
+					return
+				}
+				k, ok := ret.Results[1].(*ssa.Const)
+				if !ok || k.Value == nil {
+					return
+				}
+				ans := k.Value.String() == "true"
+				for ex, truth := range extractFactsAt(ret.Block()) {
+					tup, ok := ex.Tuple.Type().(*types.Tuple)
+					if !ok || ex.Index != tup.Len()-1 {
+						continue
+					}
+					// the value returned comes from the same lookup
+					same := false
+					var from func(v ssa.Value, d int) bool
+					from = func(v ssa.Value, d int) bool {
+						if d > 4 {
+							return false
+						}
+						switch y := v.(type) {
+						case *ssa.Extract:
+							return y.Tuple == ex.Tuple
+						case *ssa.Field:
+							return from(y.X, d+1)
+						case *ssa.UnOp:
+							if fa, ok := y.X.(*ssa.FieldAddr); ok {
+								if al, ok := fa.X.(*ssa.Alloc); ok {
+									for _, r := range referrersOf(al) {
+										if st, ok := r.(*ssa.Store); ok && st.Addr == ssa.Value(al) && from(st.Val, d+1) {
+											return true
+										}
+									}
+								}
+							}
+						}
+						return false
+					}
+					same = from(ret.Results[0], 0)
+					if !same {
+						continue
+					}
+					n++
+					c.sawFn(fnName(fn))
+					c.judge(ans == truth, "R-OK-FORWARD", fmt.Sprintf("%s:ok answer #%d", fnName(fn), n), ret.Pos(), fmt.Sprintf("ok=%v where the lookup's ok is %v", ans, truth), fmt.Sprintf("the value of a lookup that succeeded (ok=%v on this path) is returned with ok=%v: callers that test ok discard a value that is there", truth, ans))
+				}
+			})
+		}
+	}
+}
+
+// ruleIterSiblings (R-ITER-SIBLING): the constructors that hand out an iterator at either end of the map initialise
+// the same fields of it (an iterator without its map cannot seek).
+func ruleIterSiblings(c *Ctx) {
+	c.rule("R-ITER-SIBLING", 0, "omap's First and Last initialise the same fields of the iterator they return")
+	fields := func(fn *ssa.Function) (map[string]bool, bool) {
+		out := map[string]bool{}
+		found := false
+		if fn == nil {
+			return nil, false
+		}
+		for _, in := range fn.Blocks[0].Instrs {
+			st, ok := in.(*ssa.Store)
+			if !ok {
+				continue
+			}
+			fa, ok := st.Addr.(*ssa.FieldAddr)
+			if !ok {
+				continue
+			}
+			if al, ok := fa.X.(*ssa.Alloc); ok && al.Heap {
+				_, f := fieldVarOf(fa)
+				out[f.Name()] = true
+				found = true
+			}
+		}
+		return out, found
+	}
+	a, b := c.P.Func("omap", "Map", "First"), c.P.Func("omap", "Map", "Last")
+	fa, ok1 := fields(a)
+	fb, ok2 := fields(b)
+	if !ok1 && !ok2 {
+		return
+	}
+	var da, db []string
+	for f := range fa {
+		if !fb[f] {
+			da = append(da, f)
+		}
+	}
+	for f := range fb {
+		if !fa[f] {
+			db = append(db, f)
+		}
+	}
+	sort.Strings(da)
+	sort.Strings(db)
+	c.sawFn(fnName(a))
+	c.judge(len(da) == 0 && len(db) == 0, "R-ITER-SIBLING", "omap.Map.First~Last:iterator fields", b.Pos(), "same fields initialised", fmt.Sprintf("First initialises %v that Last does not, Last %v that First does not: an iterator from one end lacks state the other has (without its map it cannot Seek)", da, db))
 }
